@@ -423,15 +423,7 @@ func (x *Exec) havocRegion(st *State, sc *Scope, e Expr) {
 		if !ok {
 			sc.fail("modifies %s: not a slice", e)
 		}
-		arr := sx("sl_arr", v.T)
-		for s := range x.leafSorts(u.Elem(), nil) {
-			key := "H:" + s
-			h0 := x.get(st, key)
-			h1 := c.freshConst(mangle(key)+"_mod", x.compSort(key))
-			l := c.fresh("l")
-			c.assume(fmt.Sprintf("(forall ((%s Loc)) (! (=> (not (= (ref %s) (ref %s))) (= (select %s %s) (select %s %s))) :pattern ((select %s %s))))", l, l, arr, h1, l, h0, l, h1, l))
-			st.Comp[key] = h1
-		}
+		x.havocObject(st, x.leafSorts(u.Elem(), nil), sx("sl_arr", v.T))
 		return
 	}
 	if v, ok := sc.tryEval(e); ok && v.Ty != nil {
